@@ -132,6 +132,48 @@ Theorem check_design_sound : forall files s,
 Proof. exact check_design_tokens_sound. Qed.
 Print Assumptions check_design_sound.
 
+(* ---- process variables: written before read on every control path --------------------------- *)
+
+(* must-assign analysis of a process flow skeleton (straight-line code + IF/ELSIF/ELSE + CASE,
+   arbitrarily nested): if it accepts, then along EVERY control path (one branch per IF/CASE, or
+   none when there is no ELSE / WHEN OTHERS; ELSIF guards read on the way) every read of a process
+   variable is preceded by a write of that variable in the same activation. *)
+Theorem flow_sound : forall t a', must_t [] t = Some a' ->
+  forall tr, In tr (paths_t t) -> trace_ok [] tr = true.
+Proof. exact flow_sound_proof. Qed.
+Print Assumptions flow_sound.
+
+(* ... and an accepted design: this holds for the skeleton of every process the scanner recorded.
+   (The extraction of the skeleton from the tokens - which identifiers are variable reads /
+   writes, where branches begin - is the scanner's reading of the file and is trusted.) *)
+Theorem check_design_flows_sound : forall files s,
+  check_design_tokens files = Ok s ->
+  forall vars t, In (vars, t) (sm_flows s) -> forall tr, In tr (paths_t t) -> trace_ok [] tr = true.
+Proof. exact check_design_flows_sound. Qed.
+Print Assumptions check_design_flows_sound.
+
+Definition ex_vhdl_flow : string :=
+  "ENTITY top IS PORT( a : IN STD_LOGIC; b : IN STD_LOGIC; o : OUT STD_LOGIC ); END top;
+   ARCHITECTURE impl OF top IS BEGIN
+   p_comb : PROCESS(all) VARIABLE v_s : STD_LOGIC; VARIABLE v_r : STD_LOGIC; BEGIN
+     IF a = '1' THEN v_s := b; ELSE v_s := a; END IF;
+     IF v_s = '1' THEN v_r := b; ELSIF v_s = '0' THEN v_r := a; ELSE v_r := v_s; END IF;
+     o <= v_r; END PROCESS;
+   END impl;".
+Example ex_flow :
+  match check_design [ex_vhdl_flow] with
+  | Ok s => sm_flows s =
+      [(["v_r"; "v_s"],
+        TCons (SBranch (BCons [] (TCons (SWrite "v_s") TNil) (BCons [] (TCons (SWrite "v_s") TNil) BNil)) true)
+       (TCons (SRead "v_s")
+       (TCons (SBranch (BCons [] (TCons (SWrite "v_r") TNil)
+                       (BCons ["v_s"] (TCons (SWrite "v_r") TNil)
+                       (BCons [] (TCons (SRead "v_s") (TCons (SWrite "v_r") TNil)) BNil))) true)
+       (TCons (SRead "v_r") TNil))))]
+  | Err _ _ => False
+  end.
+Proof. vm_compute. reflexivity. Qed.
+
 Definition ex_vhdl_good : string :=
   "ENTITY top IS PORT( a : IN STD_LOGIC; o : OUT STD_LOGIC ); END top;
    ARCHITECTURE impl OF top IS SIGNAL s_x : STD_LOGIC; BEGIN
